@@ -51,10 +51,11 @@ MODELS = {
     "sphere+cylinder": "sphere+cylinder", "sphere*cylinder": "sphere*cylinder",
     "broad_peak": "broad_peak", "_spherepy": "_spherepy",
     "pyplug": os.path.join(ASSETS, "pyplug.py"), "allpd": os.path.join(ASSETS, "allpd.py"),
+    "pyscalar": os.path.join(ASSETS, "pyscalar.py"),
     # a python form factor with a compiled structure factor: PyKernel and DllKernel under one ProductKernel
     "pyplug@hardsphere": os.path.join(ASSETS, "pyplug.py") + "@hardsphere",
 }
-PY_MODELS = {"broad_peak", "_spherepy", "pyplug"}
+PY_MODELS = {"broad_peak", "_spherepy", "pyplug", "pyscalar"}
 GENERIC = set()       # builtin models added to the pool in the thorough tier
 FQ_MODELS = {"sphere", "cylinder", "core_multi_shell", "pyplug", "allpd", "_spherepy"}
 
@@ -147,6 +148,11 @@ PARS = {
         "reff2": {"radius_effective_mode": 2, "thick_pd": 0.2, "thick_pd_n": 4},
         "beta": {"structure_factor_mode": 1, "radius_pd": 0.1, "radius_pd_n": 4},
     },
+    "pyscalar": {
+        "def": {},
+        "other": {"rg": 20.0, "amp": 1.5, "background": 0.0},
+        "pd": {"rg_pd": 0.2, "rg_pd_n": 6},
+    },
     "allpd": {
         "def": {},
         "r50": {"r": 50.0},
@@ -180,7 +186,7 @@ def _add_variants():
 _add_variants()
 CUTOFFS = [0.0, 0.0, 1e-5, 1e-3]
 DATA_KINDS = ["perfect", "pinhole", "slit", "2d", "sesans", "sesans_tight"]
-SV_MODELS = ["sphere", "cylinder", "core_multi_shell", "sphere@hardsphere", "sphere@hayter_msa", "hardsphere", "broad_peak",
+SV_MODELS = ["sphere", "cylinder", "core_multi_shell", "sphere@hardsphere", "sphere@hayter_msa", "hardsphere", "broad_peak", "pyscalar",
              "pyplug", "allpd"]
 SV_SET = {
     "sphere": [("radius", 80.0), ("scale", 0.3), ("background", 0.05), ("sld", 2.0), ("sld_M0", 4.0)],
@@ -193,6 +199,7 @@ SV_SET = {
                           ("radius_effective.npts", 6), ("charge", 30.0), ("volfraction", 0.1)],
     "broad_peak": [("peak_pos", 0.08), ("porod_exp", 2.5)],
     "pyplug": [("radius", 22.0), ("thick", 3.0)],
+    "pyscalar": [("rg", 30.0), ("amp", 2.0), ("rg.width", 0.2), ("rg.npts", 5)],
     "allpd": [("r", 12.0), ("r", -10.0)],
 }
 SV_ARRAY = {
@@ -959,7 +966,7 @@ def sweep_configs(tier):
     (result-buffer and scratch-vector leaks are pairwise phenomena)."""
     out = []
     models = sorted(m for m in MODELS if m not in GENERIC) if tier != "quick" else \
-        ["sphere", "cylinder", "sphere@hardsphere", "sphere@hayter_msa", "_spherepy", "pyplug", "allpd"]
+        ["sphere", "cylinder", "sphere@hardsphere", "sphere@hayter_msa", "_spherepy", "pyplug", "pyscalar", "allpd"]
     for model in models:
         keys = [k for k in sorted(PARS[model]) if k.split("#")[0] not in ("pd4", "bad", "toomany")
                 and not k.endswith(("#t", "#n"))]
